@@ -16,10 +16,12 @@ OBVIOUS_REDIRECTS_RE = re.compile(
     % r"(?:redirect(?:_to)?|target|redir|next|link|orig|goto|url|[luq])",
     re.I,
 )
+# NOTE: a host can come with a port, and is case-insensitive
 REDIRECTION_DOMAINS_RE = re.compile(
-    r"(?:\.ampproject\.org/[cv]/(?:s/)?|bc\.marfeelcache\.com/amp/|bc\.marfeel\.com/)",
+    r"(?:\.ampproject\.org(?::\d*)?/[cv]/(?:s/)?|bc\.marfeelcache\.com(?::\d*)?/amp/|bc\.marfeel\.com(?::\d*)?/)",
     re.I,
 )
+YOUTUBE_REDIRECT_RE = re.compile(r"youtube\.com(?::\d*)?/redirect\?", re.I)
 
 
 def infer_redirection(url, recursive=True):
@@ -83,7 +85,7 @@ def infer_redirection(url, recursive=True):
                     pass
 
             # Idiotic youtube redirections
-            elif "youtube.com/redirect?" in url:
+            elif YOUTUBE_REDIRECT_RE.search(url):
                 target = "https://" + potential_target
 
     # NOTE: an inferred target is always a strict part of the url, hence shorter.
